@@ -105,10 +105,15 @@ func init() {
 					}
 				}
 				ts = nonEmpty
+				nt := 24
 				if tier == "thorough" {
-					ts = thin(ts, 60)
+					nt = 60
+				}
+				if eco == "golang" {
+					// all three pseudo-version forms are always in the set
+					ts = pick(eco, ts, nt)
 				} else {
-					ts = thin(ts, 24)
+					ts = thin(ts, nt)
 				}
 				for _, a := range ts {
 					for _, b := range ts {
